@@ -55,6 +55,8 @@ func DetachClearSign(w io.Writer, signer *openpgp.Entity, message io.Reader, con
 	done := make(chan error)
 	go func() {
 		tail, err := tailClearSign(readPipe)
+		// unblock ClearSign if reading stopped early, e.g. on an over-long line
+		_ = readPipe.CloseWithError(err)
 		if err == nil {
 			_, err = w.Write(tail)
 		}
